@@ -547,6 +547,9 @@ var jsonStringRe = regexp.MustCompile(`"(?:[^"\\]|\\.)*"`)
 func c02Judge(in c02Input, o c02Obs) (vs []c02Verdict, notes []string) {
 	add := func(k, d string) { vs = append(vs, c02Verdict{k, d}) }
 	msg, args, msgKnown := in.msgAndArgs()
+	if !msgKnown && len(o.Vals) > 0 {
+		msg = fmt.Sprint(o.Vals[0]) // what a Println that formats its first argument would log; only its blankness is used
+	}
 	if o.Panic != "" {
 		if in.EPKind == "println" && len(in.Args) > 0 && !in.Args[0].isString() && strings.Contains(o.Panic, "interface conversion") {
 			add("C02/println-non-string-first-arg", fmt.Sprintf("%s.Println with a first argument of kind %s/%s%s panicked: %s", in.Recv, in.Args[0].Kind, in.Args[0].X, valKind(in.Args[0]), o.Panic))
@@ -593,13 +596,13 @@ func c02Judge(in c02Input, o c02Obs) (vs []c02Verdict, notes []string) {
 			break
 		}
 	}
-	if in.Sev == 8 && msgKnown && isBlank(msg) {
+	if in.Sev == 8 && isBlank(msg) {
 		if string(p) != "\n" {
 			add("C02/blank-print", fmt.Sprintf("a blank %s (message %q) must be delivered as exactly one newline byte, got %q", in.Name, msg, clip(string(p), 160)))
 		}
 		return
 	}
-	if string(p) == "\n" && msgKnown {
+	if string(p) == "\n" {
 		add("C02/bare-newline-for-ordinary-record", fmt.Sprintf("%s.%s severity %d message %q: the record was delivered as a bare newline (the blank-line form belongs to Print/Println only)", in.Recv, in.Name, in.Sev, msg))
 		return
 	}
@@ -806,6 +809,11 @@ func c02One(r *Run, snap *slog.VerifRegistry, in c02Input, runeSet map[rune]bool
 	r.Dist["mode="+in.Mode]++
 	r.Dist[fmt.Sprintf("args=%s", sizeClass(len(in.Args)))]++
 	r.Dist[fmt.Sprintf("writes=%d", len(o.Writers))]++
+	if len(o.Writers) > 0 {
+		r.Dist["admitted"]++
+	} else if o.Panic == "" {
+		r.Dist["not-admitted"]++
+	}
 	canon := fmt.Sprintf("%+v", in)
 	big := false
 	for _, p := range o.Payloads {
